@@ -53,6 +53,19 @@ def purity_and_reports(res, el, label, point):
         res.violation('impure|%s' % label, 'validate() changed the element: %r -> %r' % (before[0][:100], after[0][:100]), point, 1)
     if (r1.is_valid, errs(r1), [str(w) for w in r1.warnings]) != (r2.is_valid, errs(r2), [str(w) for w in r2.warnings]):
         res.violation('nondeterministic|%s' % label, 'two validate() calls report differently', point, 1)
+    # a result that is held stays what it was while other elements are validated
+    held = (r1.is_valid, errs(r1), [str(w) for w in r1.warnings])
+    from hl7apy.core import Segment
+    other_bad = Segment('PID', version=el.version)
+    other_bad.validate(return_errors=True)
+    other_ok = Segment('EVN', version=el.version)
+    try:
+        other_ok.validate(return_errors=True)
+    except Exception:
+        pass
+    if (r1.is_valid, errs(r1), [str(w) for w in r1.warnings]) != held:
+        res.violation('impure|held-report-changed|%s' % label, 'a report returned by validate() changed when another element was validated: %r -> %r'
+                      % (held[1][:2], errs(r1)[:2]), point, 1)
     if r1.is_valid != (len(r1.errors) == 0):
         res.violation('report-mismatch|is_valid', 'is_valid=%r with %d errors' % (r1.is_valid, len(r1.errors)), point, 1)
     try:
